@@ -217,6 +217,29 @@ def universe(tier):
                          ('Once', ('rule', ['f', 'x'], ('call', 'f', [], [('p', ('ref', 'x'))])))] + WRAP + BASE + ID
                 yield ('higher-order/%s' % ('kw' if kw else 'pos'), call('Twice', [('ref', f), arg], kw), rules, None)
                 yield ('higher-order/%s' % ('kw' if kw else 'pos'), call('Once', [('ref', f), arg], kw), rules, None)
+    # a mutable value argument: every instantiation evaluates the argument anew (a list filled by the body is a new list each
+    # time the call is reached: in a loop, at two sites, in the next parse)
+    fill = ('right', ('star', ('apply', ('re', '[ab]'), ('py', 'acc.append'))), ('py', 'acc'))
+    for arg in ('[]', 'list()', '[0][:0]'):
+        rules = [('T', ('rule', ['acc'], fill))] + BASE + ID
+        t = call('T', [('py', arg)], None)
+        yield ('mutable-value-arg', ('star', ('left', t, C)), rules, None)
+        yield ('mutable-value-arg', ('seq', t, ('opt', C), t), rules, None)
+        yield ('mutable-value-arg', ('choice', ('seq', t, C, C), ('seq', t, C)), rules, None)
+    # a parameter re-bound by an inner let and used again after that let has ended (directly and inside a compound argument)
+    for arg in (A, ('re', '[ab]'), ('ref', 'X'), ('seq', A, B)):
+        for body in (('seq', ('let', 'p', C, ('py', 'p')), ('call', 'ID', [('seq', P, C)], []), P),
+                     ('seq', ('opt', ('let', 'p', C, P)), P, ('call', 'ID', [('left', P, ('opt', C))], [])),
+                     ('seq', ('let', 'p', ('re', '[bc]'), ('py', 'p')), ('star', P))):
+            for kw in (None, ('p',)):
+                yield ('param-rebound-by-let/%s' % ('kw' if kw else 'pos'), call('T', [arg], kw), [('T', ('rule', ['p'], body))] + BASE + ID, None)
+    # objects of two classes with the same field names and values as value arguments at one position
+    KK = [('KK', ('class', None, [('k', False, A)]))]
+    for body in (('seq', ('py', 'p'), ('opt', B)), ('seq', ('opt', B), ('py', '[p]'))):
+        rules = [('T', ('rule', ['p'], body))] + KK + BASE + ID
+        t = call('T', [('ref', 'w')], None)
+        yield ('look-alike-objects', ('choice', ('left', ('let', 'w', ('ref', 'K'), t), C), ('let', 'w', ('ref', 'KK'), t)), rules, None)
+        yield ('look-alike-objects', ('seq', ('expect', ('let', 'w', ('ref', 'KK'), t)), ('let', 'w', ('ref', 'K'), t)), rules, None)
     # class templates
     for a1, a2 in ((A, ('re', '[bc]')), (('seq', A, B), ('ref', 'X')), (('ref', 'K'), C)):
         cls = ('class', ['p', 'q'], [('x', False, P), ('y', False, ('star', Q))])
